@@ -143,4 +143,10 @@ def clause_active(c, prop):
     tags = clause_tags(c)
     if tags is not None and "ASSUME" in tags:
         return False
-    return tags is None or prop is None or prop in tags
+    # Tags say which property a clause was written for.  Every clause of a function under contract is proved in every
+    # check that lists the function (the properties overlap: a change that breaks a clause written for C06 in a function
+    # that C04 relies on is a finding for C04 too); VERIF_TAGGED_ONLY=1 restores the per-property selection.
+    import os
+    if os.environ.get("VERIF_TAGGED_ONLY") == "1":
+        return tags is None or prop is None or prop in tags
+    return True
